@@ -88,6 +88,9 @@ def groups(tier, seed):
         for d in family_descs(4, iso_classes(4), [(2, 2, 3, 2)], fams=((1, 2, 1),), fps=(0,)):
             for lab in (("int", [3, 1, 0, 2], "rot"), ("str", [2, 3, 1, 0], "str")):
                 out.append({"bn": d, "lab": list(lab), "virt": 1 if lab[0] == "str" else 0, "qmax": 2, "emax": 2})
+        # five nodes: the 302 isomorphism classes, cardinalities (2,3,2,2,3), |Q|<=2, |E|<=1
+        for d in family_descs(5, iso_classes(5), [(2, 3, 2, 2, 3)], fams=((1, 2, 1),), fps=()):
+            out.append({"bn": d, "lab": ["str", None, "str"], "virt": 0, "qmax": 2, "emax": 1})
     return out
 
 
